@@ -5,6 +5,7 @@ CONSTANTS
   KeyOrder <- KO
   ProgSpace <- Prog2x2
   ComputeMode = "recheck"
+  InitMode = "recheck"
 VIEW View
 INVARIANT NoPanic
 PROPERTY Refines
